@@ -2154,3 +2154,165 @@ Section ValuesContent.
     - apply chunks_rows. exact LC.
   Qed.
 End ValuesContent.
+
+(* ================================================================== strict=True: nothing unregistered is ever created *)
+Section StrictFrame.
+  Variable pycast : dtype -> pyval -> outcome pyval.
+  Variable arrcast : dtype -> dtype -> pyval -> outcome pyval.
+  Variable infer : list pyval -> dtype.
+  Variable astype_dt : dtype -> list pyval -> dreq -> dtype.
+  Variable itemseq_exn : dtype -> exn.
+  Notation setattr_var := (setattr_var pycast arrcast).
+  Notation set_rows_arr := (set_rows_arr pycast arrcast).
+  Notation set_rows_full := (set_rows_full pycast arrcast infer).
+  Notation values_setter := (values_setter pycast arrcast infer).
+  Notation obj_setattr := (obj_setattr pycast arrcast infer).
+  Notation add_attribute := (add_attribute pycast arrcast infer).
+  Notation setattr := (setattr pycast arrcast infer).
+  Notation setitem := (setitem pycast arrcast infer itemseq_exn).
+  Notation replace_values := (replace_values pycast arrcast infer itemseq_exn).
+  Notation base_add_variable := (base_add_variable pycast arrcast infer astype_dt).
+  Notation add_variable := (add_variable pycast arrcast infer astype_dt).
+  Notation step := (step pycast arrcast infer astype_dt itemseq_exn).
+
+  (* "attribute frame": registry, attribute dictionary and strict flag are what they were *)
+  Definition same_attrs (s s' : state) : Prop := registry s' = registry s /\ adict s' = adict s /\ strict s' = strict s.
+
+  Lemma same_attrs_refl s : same_attrs s s. Proof. repeat split. Qed.
+  Lemma same_attrs_trans s1 s2 s3 : same_attrs s1 s2 -> same_attrs s2 s3 -> same_attrs s1 s3.
+  Proof. intros (A1 & A2 & A3) (B1 & B2 & B3). repeat split; congruence. Qed.
+
+  Lemma setattr_var_sa name value s : same_attrs s (fst (setattr_var name value s)).
+  Proof. destruct (setattr_var_frame pycast arrcast name value s) as (R & A & S & _). repeat split; assumption. Qed.
+
+  Lemma set_rows_arr_sa src nms : forall rws s, same_attrs s (fst (set_rows_arr src nms rws s)).
+  Proof.
+    induction nms as [|x nms IH]; intros rws s; simpl; [apply same_attrs_refl|].
+    destruct rws as [|r rr]; [apply same_attrs_refl|].
+    destruct (assoc x (vars s)) as [v|]; [|apply same_attrs_refl].
+    destruct (cast_all (arrcast src (vdtype v)) r) as [r'|e]; [|apply same_attrs_refl].
+    pose proof (setattr_var_sa x (OArr [length r'] (vdtype v) r') s) as F.
+    destruct (setattr_var x (OArr [length r'] (vdtype v) r') s) as [s' [u|e]]; simpl in *; [|exact F].
+    eapply same_attrs_trans; [exact F|apply IH].
+  Qed.
+
+  Lemma set_rows_full_sa value nms : forall s, same_attrs s (fst (set_rows_full nms value s)).
+  Proof.
+    induction nms as [|x nms IH]; intros s; simpl; [apply same_attrs_refl|].
+    destruct (assoc x (vars s)) as [v|]; [|apply same_attrs_refl].
+    destruct (natural pycast infer value) as [[[src sh] cells]|e]; [|apply same_attrs_refl].
+    destruct (bcast_arr (prod_shape (vshape v)) sh cells) as [cs|]; [|apply same_attrs_refl].
+    destruct (cast_all (arrcast src (vdtype v)) cs) as [cs'|e]; [|apply same_attrs_refl].
+    pose proof (setattr_var_sa x (OArr (vshape v) (vdtype v) cs') s) as F.
+    destruct (setattr_var x (OArr (vshape v) (vdtype v) cs') s) as [s' [u|e]]; simpl in *; [|exact F].
+    eapply same_attrs_trans; [exact F|apply IH].
+  Qed.
+
+  Lemma values_setter_sa value s : same_attrs s (fst (values_setter value s)).
+  Proof.
+    unfold Container.values_setter. destruct value; try apply set_rows_full_sa.
+    destruct (values_shape s) as [vsh|e]; [|apply same_attrs_refl].
+    destruct (list_eq_dec Nat.eq_dec sh vsh); [|apply same_attrs_refl].
+    destruct sh as [|r [|m [|q t]]]; try apply same_attrs_refl. apply set_rows_arr_sa.
+  Qed.
+
+  Lemma setitem_sa k value s : match k with KName _ => False | _ => True end -> same_attrs s (fst (setitem k value s)).
+  Proof.
+    intros NK. unfold Container.setitem. destruct k as [name|name l|name a b st| |]; try contradiction; try apply same_attrs_refl.
+    - destruct (negb (mem name (index s))); [apply same_attrs_refl|].
+      destruct (locate (span s) l) as [p|e]; [|apply same_attrs_refl].
+      destruct (assoc name (vars s)) as [v|]; [|apply same_attrs_refl].
+      destruct (Container.assign_item pycast arrcast itemseq_exn v p value) as [v' e]. simpl. repeat split.
+    - destruct (negb (mem name (index s))); [apply same_attrs_refl|].
+      destruct (resolve_slice (span s) a b st) as [[[sl el] stp]|e]; [|apply same_attrs_refl].
+      destruct (assoc name (vars s)) as [v|]; [|apply same_attrs_refl].
+      destruct (vshape v) as [|m [|m' r]]; try apply same_attrs_refl.
+      destruct (slice_positions m sl el stp) as [ps|]; [|apply same_attrs_refl].
+      destruct (Container.assign_inplace pycast arrcast v ps value) as [v' e]. simpl. repeat split.
+  Qed.
+
+  Lemma setitem_name_sa name value s : same_attrs s (fst (setitem (KName name) value s)).
+  Proof.
+    unfold Container.setitem. destruct (mem name (index s)) eqn:M; cbn [negb]; [|apply same_attrs_refl].
+    rewrite (setattr_on_var pycast arrcast infer _ _ _ _ M). apply setattr_var_sa.
+  Qed.
+
+  Lemma replace_values_sa kvs : forall s, same_attrs s (fst (replace_values kvs s)).
+  Proof.
+    induction kvs as [|[k v] kvs IH]; intros s; [apply same_attrs_refl|].
+    change (replace_values ((k, v) :: kvs) s) with
+      (match setitem (KName k) v s with (s1, Ret _) => replace_values kvs s1 | (s1, Raise e1) => (s1, Raise e1) end).
+    pose proof (setitem_name_sa k v s) as F.
+    destruct (setitem (KName k) v s) as [s' [u|e]]; simpl in *; [|exact F].
+    eapply same_attrs_trans; [exact F|apply IH].
+  Qed.
+
+  Lemma base_add_variable_sa name value dt s : same_attrs s (fst (base_add_variable name value dt s)).
+  Proof.
+    destruct (base_add_variable name value dt s) as [s' [u|e]] eqn:B; simpl.
+    - unfold Container.base_add_variable in B.
+      destruct (mem name (index s)); [inversion B|]. destruct (storage_taken name s); [inversion B|].
+      match type of B with context [match ?x with Ret _ => _ | Raise _ => _ end] => destruct x as [[[d0 m0] cells0]|e] end; [|inversion B].
+      match type of B with context [match ?x with Ret _ => _ | Raise _ => _ end] => destruct x as [[d1 cells1]|e] end; [|inversion B].
+      destruct (negb (Nat.eqb m0 (n_of s))); inversion B; subst; repeat split.
+    - apply (base_add_variable_raise pycast arrcast infer astype_dt) in B. subst. apply same_attrs_refl.
+  Qed.
+
+  Lemma add_variable_sa name value dt s : same_attrs s (fst (add_variable name value dt s)).
+  Proof.
+    unfold Container.add_variable.
+    destruct (kind s); [apply base_add_variable_sa| |];
+      (pose proof (base_add_variable_sa name value (match dt with None => dflt s | Some _ => dt end) s) as F;
+       destruct (base_add_variable name value (match dt with None => dflt s | Some _ => dt end) s) as [s' [u|e]]; simpl in *; exact F).
+  Qed.
+
+  (* an attribute assignment to a REGISTERED, in-scope name never extends the registry; the only attribute entry it can write is its own *)
+  Lemma obj_setattr_reg name value s :
+    bookkeeping (kind s) name = false ->
+    registry (fst (obj_setattr name value s)) = registry s /\
+    (forall x, assoc x (adict (fst (obj_setattr name value s))) <> None -> assoc x (adict s) <> None \/ x = name).
+  Proof.
+    intros B. unfold Container.obj_setattr. rewrite B.
+    destruct (String.eqb name "strict").
+    - destruct (truthy value); simpl; auto.
+    - destruct (String.eqb name "values").
+      + destruct (values_setter_sa value s) as (R & A & _). rewrite R, A. auto.
+      + destruct (String.eqb name "size" || String.eqb name "nbytes")%bool; [simpl; auto|].
+        match goal with |- context [if ?c then _ else _] => destruct c end; [simpl; auto|].
+        simpl. split; [reflexivity|]. intros x H. destruct (string_dec x name) as [->|N]; [right; reflexivity|].
+        left. rewrite (assoc_set_neq _ _ _ _ N) in H. exact H.
+  Qed.
+
+  (* WITH strict=True NO OPERATION OTHER THAN add_attribute (and the very first `obj.strict = ...`, which registers the property) can
+     create a non-variable attribute: the registry is what it was, and every attribute entry afterwards either was there or belongs
+     to a name that was registered before *)
+  Theorem strict_creates_nothing o s :
+    strict s = true -> in_scope (kind s) o ->
+    (forall n v, o <> AddAttribute n v) -> (forall v h, o <> SetAttr "strict" v h) ->
+    registry (fst (step o s)) = registry s /\
+    (forall x, assoc x (adict (fst (step o s))) <> None -> assoc x (adict s) <> None \/ reg_mem x (registry s) = true).
+  Proof.
+    intros ST SC NA NS.
+    assert (SA : forall s', same_attrs s s' ->
+                 registry s' = registry s /\ (forall x, assoc x (adict s') <> None -> assoc x (adict s) <> None \/ reg_mem x (registry s) = true)).
+    { intros s' (R & A & _). rewrite R, A. auto. }
+    destruct o as [name v dt|name v hint|k v|kvs|name v|q]; simpl.
+    - apply SA. apply add_variable_sa.
+    - simpl in SC. unfold Container.setattr. rewrite ST.
+      destruct (String.eqb name "strict") eqn:E; [apply String.eqb_eq in E; subst; exfalso; exact (NS v hint eq_refl)|].
+      cbn [negb andb].
+      destruct (mem name (index s)) eqn:M; cbn [negb andb].
+      + apply SA. apply setattr_var_sa.
+      + destruct (reg_mem name (registry s)) eqn:R; cbn [negb andb].
+        * destruct (obj_setattr_reg name v s SC) as [R1 A1]. split; [exact R1|].
+          intros x Hx. destruct (A1 x Hx) as [H|H]; [left; exact H|right; subst x; exact R].
+        * destruct (alternatives hint (row_names s)) as [|a [|b r]]; simpl; auto.
+    - destruct k as [name|name l|name a b st| |]; try (simpl; auto; fail).
+      + apply SA. apply setitem_name_sa.
+      + apply SA. apply (setitem_sa (KLabel name l) v s). exact I.
+      + apply SA. apply (setitem_sa (KSlice name a b st) v s). exact I.
+    - apply SA. apply replace_values_sa.
+    - exfalso. exact (NA name v eq_refl).
+    - rewrite read_frame. auto.
+  Qed.
+End StrictFrame.
